@@ -225,18 +225,23 @@ def build_expr(e, xs):
     raise AssertionError(op)
 
 
-def build_model(spec):
-    """Model, or ('unbuildable', why) when the operators refuse an expression shape (TypeError) or fold it to a bool."""
+def build_model(spec, m=None, vars_from=0, vars_to=None, cons_from=0, cons_to=None):
+    """Model, or ('unbuildable', why) when the operators refuse an expression shape (TypeError) or fold it to a bool.
+    With `m` given: continue building the same Model (variables vars_from.., constraints cons_from..) - in-place edits."""
     from solvor.cp import Model
 
     from harness.props.C06_hard import wrap
 
-    m = Model()
+    if m is None:
+        m = Model()
+        m._verif_xs = []
+        m._verif_inputs = []   # (the caller's list object, a copy): the library must not modify what it is given
     # names are built at call time (equal but not identical to any other string object with the same text)
-    xs = [m.int_var(lo, hi, "".join(list(nm))) if nm is not None else m.int_var(lo, hi) for nm, lo, hi in spec["vars"]]
+    m._verif_xs += [m.int_var(lo, hi, "".join(list(nm))) if nm is not None else m.int_var(lo, hi)
+                    for nm, lo, hi in spec["vars"][vars_from:vars_to]]
+    xs = m._verif_xs
     modes = spec.get("iter") or ["list"] * len(spec["cons"])
-    m._verif_inputs = []   # (the caller's list object, a copy): the library must not modify what it is given
-    for c, mode in zip(spec["cons"], modes):
+    for c, mode in list(zip(spec["cons"], modes))[cons_from:cons_to]:
         k = c[0]
 
         def arg(seq, sized=False):
@@ -267,6 +272,16 @@ def build_model(spec):
             return ("unbuildable", f"operator returned {built!r}")
         m.add(built)
     return m
+
+
+def final_spec(spec):
+    """the content of the Model after the in-place edits of the spec"""
+    s = {k: v for k, v in spec.items() if k not in ("edit", "replace", "pre", "seq")}
+    if spec.get("replace"):
+        k, newc = spec["replace"]
+        s["cons"] = list(spec["cons"])
+        s["cons"][k] = newc
+    return s
 
 
 class Recorder:
@@ -307,14 +322,59 @@ def capture(m, canned=None, limit=1):
 
 def run_case(spec):
     """Everything observed on the implementation for one spec (a dict; exceptions of the library are outcomes)."""
-    m = build_model(spec)
+    edit_bad = None
+    if spec.get("pre"):
+        # A2: another Model of the same shape is built, encoded and destroyed first (caches keyed by id() / sizes must not leak)
+        import gc
+
+        pm = build_model(spec["pre"])
+        if not isinstance(pm, tuple):
+            capture(pm)
+        del pm
+        gc.collect()
+    if spec.get("edit"):
+        # A2: the Model is solved, then edited IN PLACE through the public API (more variables, more constraints), then solved again
+        ev_, ec_ = spec["edit"]
+        m = build_model(spec, vars_to=ev_, cons_to=ec_)
+        if isinstance(m, tuple):
+            return {"built": False, "why": m[1]}
+        capture(m)
+        try:
+            import solvor.cp_encoder as _enc
+            rec_, real_ = Recorder(), _enc.solve_sat
+            _enc.solve_sat = rec_
+            try:
+                m.solve(solver="dfs", solution_limit=2)
+            finally:
+                _enc.solve_sat = real_
+        except Exception:  # noqa: BLE001
+            pass
+        m = build_model(spec, m=m, vars_from=ev_, cons_from=ec_)
+    else:
+        m = build_model(spec)
     if isinstance(m, tuple):
         return {"built": False, "why": m[1]}
+    if spec.get("replace"):
+        # A2: one constraint of the Model's list is replaced in place (same length) after a solve
+        k_, newc = spec["replace"]
+        capture(m)
+        tmp = build_model({"vars": [], "cons": [newc]}, m=m, vars_from=0, vars_to=0)
+        if isinstance(tmp, tuple):
+            return {"built": False, "why": tmp[1]}
+        m._constraints[k_] = m._constraints.pop()
     names = list(m._vars)
     info = {"built": True, "names": names}
     info["vars"] = [(v.lb, v.ub, not n.startswith("_"), v.bool_vars.get(v.lb, 0), dict(v.bool_vars)) for n, v in m._vars.items()]
     info["next_bool"] = m._next_bool
-    info["ast"] = [walk_constraint(c, names) for c in m._constraints]
+    def ast_now():
+        try:
+            return [walk_constraint(c, names) for c in m._constraints]
+        except ValueError:
+            if not spec.get("nocoq"):
+                raise
+            return [repr(c) for c in m._constraints]      # float arguments have no Coq counterpart
+
+    info["ast"] = ast_now()
     kind, cnf, res = capture(m)
     info["kind"], info["cnf"], info["status"] = kind, cnf, getattr(getattr(res, "status", None), "name", str(getattr(res, "status", None)))
     # a second encoding of the same Model object must hand over the same clauses (nothing left behind by the first)
@@ -328,12 +388,18 @@ def run_case(spec):
     bad = None
     if after != info["vars"] or list(m._vars) != names:
         bad = "encoding changed the variables of the Model (bounds / literals / names)"
-    elif [walk_constraint(c, names) for c in m._constraints] != info["ast"]:
+    elif ast_now() != info["ast"]:
         bad = "encoding changed Model._constraints"
     elif any(len(a) != len(b) or any(x is not y and not (isinstance(x, int) and isinstance(y, int) and x == y) for x, y in zip(a, b))
              for a, b in m._verif_inputs):
         bad = "a list passed to a Model constructor was modified"
     info["alts"] = []
+    if bad is None and (spec.get("edit") or spec.get("replace") or spec.get("pre")):
+        fresh = build_model(final_spec(spec))
+        if not isinstance(fresh, tuple):
+            fk, fc, _ = capture(fresh)
+            if (fk, fc) != (kind, cnf):
+                bad = "a Model edited in place after a solve (or built after another Model was destroyed) encodes differently from a fresh Model with the same content"
     if bad is None and spec.get("seq"):
         from harness.props.C06_hard import call_sequences
 
@@ -430,6 +496,7 @@ def coq_case(info):
 # ================================================================ judging one case (oracle)
 def judge(spec, info):
     """None if the captured CNF has exactly the CP models, else a description.  Also returns statistics."""
+    spec = final_spec(spec) if spec.get("replace") else spec
     stats = {}
     if not info["built"]:
         return None, stats
@@ -711,6 +778,8 @@ def kinds_of(info):
 
 def shrink(spec, fails):
     """drop constraints / variables' range while it still fails"""
+    if any(k in spec for k in ("edit", "replace", "pre", "nocoq")):
+        return spec
     cur = json.loads(json.dumps(spec))
     changed = True
     while changed:
@@ -739,7 +808,9 @@ def shrink(spec, fails):
 
 
 def evaluate(spec):
-    res = guarded(run_case, spec, timeout=30 if "base" in spec else 10)
+    res = guarded(run_case, spec, timeout=60 if "base" in spec else 10)
+    if res[0] == "exc" and spec.get("family") == "X" and res[1] in ("TypeError", "ValueError", "OverflowError", "KeyError"):
+        return {"built": False, "why": f"float argument rejected: {res[1]}"}, None, {}
     if res[0] != "ok":
         return None, f"implementation {res[0]}: {res[1:]}", {}
     info = res[1]
@@ -797,12 +868,16 @@ def run(ctx: Ctx):
         ctx.internal_errors.append(bad)
         return
     thorough = ctx.tier == "thorough"
-    n = ctx.budget(340, 6000)
+    n = ctx.budget(300, 6000)
     specs = _corpus() + [json.loads(json.dumps(s)) for s in EDGE_SPECS] + [rand_spec(ctx.rng) for _ in range(n)]
     # round-2 families (HARDENING.md): A twins, M magnitudes, L names, I iterables; S and O below; H directed at the end
-    specs += [H.twin_spec(ctx.rng) for _ in range(ctx.budget(140, 1500))]
+    specs += [H.twin_spec(ctx.rng) for _ in range(ctx.budget(110, 1500))]
     specs += [H.magnitude_spec(ctx.rng) for _ in range(ctx.budget(60, 700))]
     specs += [H.many_constraints(ctx.rng) for _ in range(ctx.budget(4, 40))]
+    # round 3: A2 in-place edits / destroyed siblings, X float arguments (W below with the large instances)
+    specs += [H.edited_spec(ctx.rng) for _ in range(ctx.budget(60, 600))]
+    specs += [s_ for s_ in (H.float_spec(ctx.rng) for _ in range(ctx.budget(60, 600))) if s_]
+    specs += [H.float_boundary_spec(ctx.rng) for _ in range(ctx.budget(120, 1200))]
     specs += [H.relabel(ctx.rng, rand_spec(ctx.rng)) for _ in range(ctx.budget(40, 400))]
     specs += [H.with_iterables(ctx.rng, rand_spec(ctx.rng) if ctx.rng.random() < 0.7 else H.twin_spec(ctx.rng)) for _ in range(ctx.budget(50, 500))]
     for sp in specs:
@@ -812,6 +887,7 @@ def run(ctx: Ctx):
     coq_cases, coq_proj, metas = [], [], []
     coq_big, metas_big = [], []
     events = {}
+    work_max = {}
     import time as _time
     t_phase = {"start": _time.time()}
 
@@ -824,7 +900,19 @@ def run(ctx: Ctx):
             return
         if not info["built"]:
             ctx.count("unbuildable", info["why"][:40])
+            if fam == "X":
+                ctx.evaluations += 1
+                ctx.count("family", "X-rejected")
             return
+        if fam == "X" and bad and H.has_nan(spec):
+            # reported finding cp_nan_bound: a NaN bound is accepted and the constraint silently vanishes
+            ctx.evaluations += 1
+            ctx.count("family", "X-nan")
+            ctx.known_hit("C06-cp-nan-bound", f"NaN argument accepted, constraint not enforced: {json.dumps(spec['cons'])[:200]} :: {bad[:160]}")
+            return
+        work = H.work_counts(spec, info)
+        for k_, v_ in work.items():
+            work_max[k_] = max(work_max.get(k_, 0), v_)
         ctx.evaluations += 1
         ctx.count("family", fam)
         if spec.get("seq"):
@@ -842,7 +930,7 @@ def run(ctx: Ctx):
             if stats.get("probes_sat", 0) and stats.get("probes", 0) > stats.get("probes_sat", 0):
                 ctx.nontriv(json.dumps(spec, sort_keys=True))
             ctx.sample({"family": fam, "vars": len(spec["vars"]), "cons": [c[0] for c in spec["cons"]], **stats}, 6)
-            if info["cnf"] is None or len(info["cnf"]) <= (60000 if thorough else 8000):   # parsing 40k clauses costs coqc ~20 s
+            if not spec.get("nocoq") and (info["cnf"] is None or len(info["cnf"]) <= (60000 if thorough else 8000)):   # parsing 40k clauses costs coqc ~20 s
                 coq_big.append(coq_case(info))
                 metas_big.append((spec, info))
             return
@@ -860,6 +948,8 @@ def run(ctx: Ctx):
         if (0 < ncp and stats.get("cnf_models", 0) and ncp < bs) or (ncp == 0 and info["kind"] == "cnf"):
             ctx.nontriv(json.dumps(spec, sort_keys=True))
         ctx.sample({"spec": spec, "clauses": None if info["cnf"] is None else len(info["cnf"]), **stats}, 3)
+        if spec.get("nocoq"):
+            return
         term = coq_case(info)
         if H.coq_span_ok(spec):
             coq_cases.append(term)
@@ -875,8 +965,19 @@ def run(ctx: Ctx):
     for e in H.EVENTS:
         ctx.count("event", e, events.get(e, 0))
     # S: large structured instances judged by probes / slices (+ the size independent Coq encoder comparison)
-    for spec in H.big_specs(ctx.rng, thorough):
+    for spec in H.big_specs(ctx.rng, thorough) + H.work_specs(ctx.rng, thorough):
         process(spec)
+    ctx.extra["work_max_iterations_per_loop"] = work_max
+    # A2: duplicate names (explicit, or produced by the library's own auto-naming)
+    for _ in range(ctx.budget(30, 300)):
+        r = guarded(H.dup_names_case, ctx.rng, timeout=10)
+        ctx.evaluations += 1
+        ctx.count("family", "A2-duplicate-names")
+        if r[0] != "ok":
+            ctx.violation(f"duplicate variable names: implementation {r[0]}: {r[1:]}", {"kind": "dupnames"}, no_input=True)
+        elif r[1][1]:
+            # reported finding cp_duplicate_names (int_var accepts a name twice; the first variable loses its exactly-one clauses)
+            ctx.known_hit("C06-cp-duplicate-names", f"{json.dumps(r[1][0])[:220]} :: {r[1][1][:200]}")
     # O: option sweeps
     for _ in range(ctx.budget(10, 80)):
         spec = rand_spec(ctx.rng) if ctx.rng.random() < 0.6 else H.twin_spec(ctx.rng)
